@@ -45,6 +45,14 @@ def run(ctx):
     ctx.cover['legal_programs_by_class'] = classes
     sec3 = sum(n for t, n in classes.items() if 'sec3' in t.split(':')[1].split('+'))
     ctx.cover['sec3_legal_programs'] = sec3
+    pats = {}
+    for idx in legal:
+        for u in cases[idx][0]['units']:
+            for st in S.walk_stmts(u['body']):
+                if st['s'] == 'call' and st['args'] and st['args'][0]['k'] == 'arr' and len(st['args'][0]['c']) == 3:
+                    pat = st['name'] + '(' + ','.join(':' if c['k'] == 'range' else 's' for c in st['args'][0]['c']) + ')'
+                    pats[pat] = pats.get(pat, 0) + 1
+    ctx.cover['sec3_call_site_patterns'] = pats
     if not ctx.replay and sec3 < (SEC3_MIN[0] if ctx.quick else SEC3_MIN[1]):
         raise F.MachineryError(f'vacuity: only {sec3} legal programs pass a 3-d section with a leading / middle scalar subscript')
     seen = set()
